@@ -48,8 +48,17 @@ def invalidations(unit, env, val, path=()):
             here = path + (name,)
             if not opt:
                 yield (f"{name}=None", here, None)
+            synth = False
             if cur is None:
-                continue
+                if not opt:
+                    continue
+                synth = True
+                # an absent optional item: the changes below make it PRESENT and invalid (present-but-wrong must be refused
+                # exactly like a required item)
+                dom = [v for v in (values.item_domain(ins, env, scope, True) or ()) if v is not None]
+                if not dom:
+                    continue
+                cur = dom[-1]
             ref = ins.get("length")
             if ins.tag == "field":
                 if t.kind == "int":
@@ -73,7 +82,7 @@ def invalidations(unit, env, val, path=()):
                         if ln.get("type") in ("byte", "char"):
                             too = INT_MAXVAL[ln.get("type")] + int(ln.get("offset", "0")) + 1
                             yield (f"len({name})={too}", here, "x" * too)
-                elif t.kind == "struct":
+                elif t.kind == "struct" and not synth:
                     yield from invalidations(env.structs[t.name], env, cur, here)
             else:
                 if ref is not None and ref.isdigit():
@@ -88,7 +97,7 @@ def invalidations(unit, env, val, path=()):
                         too = INT_MAXVAL[ln.get("type")] + int(ln.get("offset", "0")) + 1
                         filler = cur[0] if cur else (0 if t.kind != "bool" else False)
                         yield (f"len({name})={too}", here, (filler,) * too)
-                if cur:
+                if cur and not synth:
                     if t.kind == "int":
                         yield (f"{name}[0]=limit", here + (0,), INT_LIMITS[t.name])
                         yield (f"{name}[-1]=limit", here + (len(cur) - 1,), INT_LIMITS[t.name])
